@@ -244,7 +244,7 @@ def make_inverter(world: World, idx: int, spec: dict):
     fam = spec["family"]
     cls = {"ET": goodwe.ET, "DT": goodwe.DT, "ES": goodwe.ES}[fam]
     port = spec.get("port", 8899)
-    inv = cls(f"inv{idx}", port, spec.get("comm_addr", 0), spec.get("timeout", 1), spec.get("retries", 3))
+    inv = cls(spec.get("host", f"inv{idx}"), port, spec.get("comm_addr", 0), spec.get("timeout", 1), spec.get("retries", 3))
     if spec.get("keep_alive") is not None:
         inv.set_keep_alive(spec["keep_alive"])
     return inv
